@@ -433,7 +433,7 @@ func checkC16(c *hx.Checker) {
 	models := batchModels(thorough)
 	c.Rule = "Gather on axes 1, 2, -1, -2 of (N,3,2) with rank-0 / vector / matrix indices of either sign; Transpose with all 6 permutations of (N,3,2) and 8 of (N,2,3,2), the batch axis followed to its new position; " +
 		fmt.Sprintf("%d models: sample models mlp, scaler, gru (thorough: + ndm); generated per-sample models (Gemm/MatMul against weights, mlp, elementwise + activations, PRelu, Softmax/LogSoftmax over a non-batch axis, Scaler, LinearRegressor, Gather/Slice/Concat/ArgMax/Reduce on a non-batch axis, Reshape(0,-1), Flatten, Unsqueeze/Squeeze, Expand, Cast), each also behind 4 batch-preserving first stages (Relu, Add-bias, Mul, Tanh) = all 1- and 2-stage combinations; Conv 1-D/2-D (batch axis 0); RNN/GRU/LSTM with and without initial states and with seq=1 (batch axis 1); the Transpose>GRU>Squeeze>Transpose wrapping; LSTM with peephole weights, GRU with linear_before_reset; MatMul of a rank-4 input against per-head (rank-3) and shared weights, Conv with a kernel as large as the (padded) image and with a stride as large as the image; Softmax/LogSoftmax (last and non-last axis) Gemm+Tanh, 6 activation operators and RNN/GRU/LSTM with one sample of the pool 150 times (Softmax/LogSoftmax also 1e7 times) larger than the others. "+
-		"per model: sample pool of %d distinct samples; EVERY batch = every sequence over the pool of length 1..%d (all permutations, sub-selections, repetitions, batch sizes). Oracle: position i of every batched output equals the output of evaluating that sample alone (N=1), rel 1e-5; non-trivial = batches of size >= 2", len(models), pool, maxLen)
+			"per model: sample pool of %d distinct samples; EVERY batch = every sequence over the pool of length 1..%d (all permutations, sub-selections, repetitions, batch sizes). Oracle: position i of every batched output equals the output of evaluating that sample alone (N=1), rel 1e-5; non-trivial = batches of size >= 2", len(models), pool, maxLen)
 	c.Assumptions = []string{"'up to floating-point rounding': rel 1e-5 + abs 1e-6 (float32; abs 2e-4 for the models with a sample of magnitude ~150, whose intermediates have an ulp of 3e-5); the number of bit-identical cases is reported as an outcome class", "models are restricted to operators acting per sample along the batch axis, as in the statement"}
 	type job struct {
 		bm    *batchModel
